@@ -415,7 +415,7 @@ func (p *Path) errUnwrap1(th *Thread, fr *Frame, err Iface) Value {
 		}
 		return Iface{}
 	}
-	if m := p.e.prog.LookupMethod(err.t, nil, "Unwrap"); m != nil {
+	if m := p.safeLookup(err.t, "Unwrap"); m != nil {
 		if m.Signature.Results().Len() == 1 {
 			if _, isSlice := m.Signature.Results().At(0).Type().Underlying().(*types.Slice); !isSlice {
 				return p.call(th, fr, m, []Value{err.v})
@@ -451,13 +451,13 @@ func (p *Path) errorsIs(th *Thread, fr *Frame, err, target Iface, depth int) boo
 		}
 		return false
 	}
-	if m := p.e.prog.LookupMethod(err.t, nil, "Is"); m != nil {
+	if m := p.safeLookup(err.t, "Is"); m != nil {
 		r := p.call(th, fr, m, []Value{err.v, target})
 		if p.decide(r.(*Term)) {
 			return true
 		}
 	}
-	if m := p.e.prog.LookupMethod(err.t, nil, "Unwrap"); m != nil {
+	if m := p.safeLookup(err.t, "Unwrap"); m != nil {
 		r := p.call(th, fr, m, []Value{err.v})
 		switch r := r.(type) {
 		case Iface:
